@@ -182,9 +182,27 @@ class _InMemoryResult(Result):
     self._lock = threading.Lock()
 
   def create_trial(
-      self, dna_fn: Callable[[], geno.DNA], group_id: str) -> Trial:
-    """Appends a trial to the result."""
+      self,
+      dna_fn: Callable[[], geno.DNA],
+      group_id: str,
+      reuse_pending: bool = False) -> Trial:
+    """Appends a trial to the result.
+
+    Args:
+      dna_fn: A callable that proposes the DNA for the new trial.
+      group_id: The group of the worker that asks for the trial.
+      reuse_pending: If True, return the latest trial of the group when it is
+        still pending instead of creating a new one. The test and the creation
+        are atomic, so co-workers of a group always get the same pending trial.
+
+    Returns:
+      The new trial, or the pending trial of the group.
+    """
     with self._lock:
+      if reuse_pending:
+        trial = self._latest_trial_per_group.get(group_id, None)
+        if trial is not None and trial.status == 'PENDING':
+          return trial
       if (self._max_num_trials is not None
           and self.next_trial_id() > self._max_num_trials):
         raise StopIteration()
@@ -378,9 +396,8 @@ class _InMemoryBackend(backend.Backend):
       raise StopIteration()
 
     # If current session is pending, always return current session.
-    trial = self._study.get_latest_trial(self._group_id)
-    if trial is None or trial.status != 'PENDING':
-      trial = self._study.create_trial(next_dna, self._group_id)
+    trial = self._study.create_trial(
+        next_dna, self._group_id, reuse_pending=True)
     return self._create_feedback(self._study, trial)
 
   @classmethod
